@@ -380,6 +380,10 @@ def run_shard(d):
                         acc.case(("dfxp-" + wr, assign, VARIANT, j), True, out, {"route": wr, "cues_ms_per_language": assign, "variant": VARIANT, "force": lang_codes()[j]})
                         for kind, det in v:
                             acc.violation(f"C14/{kind}/langs{d['nl']}{vx}", {"k": "dfxp", "force": f"existing{j}", "writer": wr, "assign": assign, "variant": VARIANT, "_env": d["_env"]}, det)
+                v, out = eval_sami(assign)
+                acc.case(("sami", assign, VARIANT), True, out, {"route": "sami", "cues_ms_per_language": assign, "variant": VARIANT})
+                for kind, det in v:
+                    acc.violation(f"C14/{kind}/langs{d['nl']}{vx}", {"k": "sami", "assign": assign, "variant": VARIANT, "_env": d["_env"]}, det)
                 continue
             # the same writer object used for one set after the other must write what a fresh writer writes
             for name, cls in (("sami", pycaption.SAMIWriter), ("dfxp", pycaption.DFXPWriter)):
